@@ -1,8 +1,1474 @@
-//! C08 — not built yet.
+//! C08 — the delivered 256x192 canvas is the standard decode of the ULA-visible screen memory.
+//! Real code: a real `Emulator` with recording frame buffers (`host::Fb`); bytes reach the screen
+//! through every path the property names (CPU write cycles through the 0x4000 and 0xC000 windows,
+//! a real `LD (HL),A`, tape fast-load, SCR / SNA / SZX load, pokes). The Lean driver runs the
+//! model of the same operations and evaluates `stdDecode`; frames travel as FNV-1a hashes, single
+//! pixels on request (diagnosis, beam-relative probes).
+use crate::host::*;
 use crate::util::*;
+use rustzx_core::{
+    host::{Screen, Snapshot, Tape},
+    poke::{Poke, PokeAction},
+};
+use std::panic::{catch_unwind, AssertUnwindSafe};
+use std::time::Duration;
 
-pub fn run(_o: &Opts) -> Report {
+const SCR_LEN: usize = 6912;
+const CORR: &str = "corr.C08.screen (Model.Video Ctl.step / Screen.processClocks vs Emulator + ZXScreen)";
+
+fn fnv(px: &[u8]) -> u64 {
+    let mut h: u64 = 0xcbf29ce484222325;
+    for b in px {
+        h = (h ^ (*b as u64)).wrapping_mul(0x100000001b3);
+    }
+    h
+}
+
+#[derive(Clone, Debug, PartialEq)]
+enum Op {
+    Wait(usize),
+    /// finish the current frame first if `t` is behind the clock, then move the clock forward to `t`
+    SetClk(usize),
+    W(u16, u8, usize),
+    WBlk(u16, usize, Vec<u8>),
+    Z80(u16, u8),
+    Tape(u16, Vec<u8>),
+    Scr(Vec<u8>),
+    Sna48(Vec<u8>),
+    Sna128(u8, Vec<u8>, Vec<u8>),
+    Szx(Vec<(u8, Vec<u8>)>),
+    Out(u16, u8),
+    Poke(Vec<(u16, u8)>),
+    /// run to the end of the frame and compare the delivered canvas
+    Frame,
+    /// beam-relative probe: clock to `t`, CPU write (clk 0), two frames, pixel checks
+    Probe(usize, u16, u8),
+}
+
+impl Op {
+    fn text(&self) -> String {
+        match self {
+            Op::Wait(n) => format!("wait {:x}", n),
+            Op::SetClk(t) => format!("setclk {:x}", t),
+            Op::W(a, v, k) => format!("w {:04x} {:02x} {:x}", a, v, k),
+            Op::WBlk(a, k, b) => format!("wblk {:04x} {:x} {}", a, k, hex(b)),
+            Op::Z80(a, v) => format!("z80 {:04x} {:02x}", a, v),
+            Op::Tape(a, b) => format!("tape {:04x} {}", a, hex(b)),
+            Op::Scr(b) => format!("scr {}", hex(b)),
+            Op::Sna48(b) => format!("sna48 {}", hex(b)),
+            Op::Sna128(l, b5, b7) => format!("sna128 {:02x} {} {}", l, hex(b5), hex(b7)),
+            Op::Szx(ps) => {
+                let mut s = "szx".to_string();
+                for (p, b) in ps {
+                    s.push_str(&format!(" {:x} {}", p, hex(b)));
+                }
+                s
+            }
+            Op::Out(p, v) => format!("out {:04x} {:02x}", p, v),
+            Op::Poke(ps) => {
+                let mut s = "poke".to_string();
+                for (a, v) in ps {
+                    s.push_str(&format!(" {:04x}:{:02x}", a, v));
+                }
+                s
+            }
+            Op::Frame => "frame".into(),
+            Op::Probe(t, a, v) => format!("probe {:x} {:04x} {:02x}", t, a, v),
+        }
+    }
+    fn parse(s: &str) -> Option<Op> {
+        let t: Vec<&str> = s.split_whitespace().collect();
+        let n = |x: &str| usize::from_str_radix(x, 16).ok();
+        Some(match t.as_slice() {
+            ["wait", a] => Op::Wait(n(a)?),
+            ["setclk", a] => Op::SetClk(n(a)?),
+            ["w", a, v, k] => Op::W(n(a)? as u16, n(v)? as u8, n(k)?),
+            ["wblk", a, k, h] => Op::WBlk(n(a)? as u16, n(k)?, unhex(h)),
+            ["wblk", a, k] => Op::WBlk(n(a)? as u16, n(k)?, vec![]),
+            ["z80", a, v] => Op::Z80(n(a)? as u16, n(v)? as u8),
+            ["tape", a, h] => Op::Tape(n(a)? as u16, unhex(h)),
+            ["scr", h] => Op::Scr(unhex(h)),
+            ["sna48", h] => Op::Sna48(unhex(h)),
+            ["sna128", l, a, b] => Op::Sna128(n(l)? as u8, unhex(a), unhex(b)),
+            ["szx", rest @ ..] => {
+                let mut ps = vec![];
+                for c in rest.chunks(2) {
+                    if c.len() != 2 {
+                        return None;
+                    }
+                    ps.push((n(c[0])? as u8, unhex(c[1])));
+                }
+                Op::Szx(ps)
+            }
+            ["out", p, v] => Op::Out(n(p)? as u16, n(v)? as u8),
+            ["poke", rest @ ..] => {
+                let mut ps = vec![];
+                for c in rest {
+                    let (a, v) = c.split_once(':')?;
+                    ps.push((n(a)? as u16, n(v)? as u8));
+                }
+                Op::Poke(ps)
+            }
+            ["frame"] => Op::Frame,
+            ["probe", t, a, v] => Op::Probe(n(t)?, n(a)? as u16, n(v)? as u8),
+            _ => return None,
+        })
+    }
+    fn kind(&self) -> &'static str {
+        match self {
+            Op::Wait(_) => "wait",
+            Op::SetClk(_) => "setclk",
+            Op::W(a, _, _) | Op::WBlk(a, _, _) => {
+                if *a >= 0xC000 {
+                    "cpu-c000"
+                } else {
+                    "cpu-4000"
+                }
+            }
+            Op::Z80(..) => "z80",
+            Op::Tape(..) => "tape",
+            Op::Scr(_) => "scr",
+            Op::Sna48(_) | Op::Sna128(..) => "sna",
+            Op::Szx(_) => "szx",
+            Op::Out(..) => "out",
+            Op::Poke(_) => "poke",
+            Op::Frame => "frame",
+            Op::Probe(..) => "probe",
+        }
+    }
+}
+
+#[derive(Clone)]
+struct Case {
+    m128: bool,
+    ops: Vec<Op>,
+}
+
+impl Case {
+    fn text(&self) -> String {
+        let mut s = format!("m128={}", if self.m128 { 1 } else { 0 });
+        for o in &self.ops {
+            s.push_str(" ; ");
+            s.push_str(&o.text());
+        }
+        s
+    }
+    fn parse(s: &str) -> Case {
+        let mut parts = s.split(';').map(|x| x.trim());
+        let m128 = parts.next().unwrap_or("") == "m128=1";
+        Case { m128, ops: parts.filter_map(Op::parse).collect() }
+    }
+}
+
+#[derive(Clone, Debug)]
+struct Fail {
+    kind: Kind,
+    key: String,
+    what: String,
+    imp: String,
+    exp: String,
+}
+
+/// What a worker collects for the report (merged by the main thread).
+#[derive(Default)]
+struct Out {
+    evals: u64,
+    classes: Vec<String>,
+    counts: Vec<(String, String, u64)>,
+}
+impl Out {
+    fn count(&mut self, h: &str, b: impl Into<String>) {
+        self.counts.push((h.to_string(), b.into(), 1));
+    }
+}
+
+struct PokeList(Vec<PokeAction>);
+impl Poke for PokeList {
+    fn actions(&self) -> &[PokeAction] {
+        &self.0
+    }
+}
+
+/// harness-side bookkeeping of one screen byte: used for *keys and diagnosis only*
+#[derive(Clone, Copy)]
+struct Cell {
+    val: u8,
+    prev: u8,
+    writer: &'static str,
+    /// running number of the write (later writes have larger numbers)
+    seq: u64,
+}
+
+struct Sim<'a> {
+    e: Emu,
+    m128: bool,
+    model: &'a mut Model,
+    frames: u64,
+    last_fc: usize,
+    /// visible memory or bank selection changed since the last frame boundary
+    dirty: bool,
+    /// spec hashes (phase 0, phase 1) of the current visible memory
+    spec_cache: Option<(u64, u64)>,
+    flash_obs: Vec<(u64, bool)>,
+    cells: Vec<Vec<Cell>>, // [ram bank][offset < 6912]
+    fails: Vec<Fail>,
+    seq: u64,
+    spec_every: u64,
+    stable_seen: u64,
+}
+
+fn clocks_frame(m128: bool) -> usize {
+    if m128 {
+        70908
+    } else {
+        69888
+    }
+}
+
+fn decode_px(b: u8, a: u8, x: usize, phase: bool) -> u8 {
+    let on = (b >> (7 - (x & 7))) & 1 == 1;
+    let fl = (a & 0x80 != 0) && phase;
+    let c = if on ^ fl { a & 7 } else { (a >> 3) & 7 };
+    c | if a & 0x40 != 0 { 8 } else { 0 }
+}
+
+fn bitmap_off(x: usize, y: usize) -> usize {
+    ((y & 0xC0) << 5) | ((y & 7) << 8) | ((y & 0x38) << 2) | (x >> 3)
+}
+
+fn attr_off(x: usize, y: usize) -> usize {
+    0x1800 + (y >> 3) * 32 + (x >> 3)
+}
+
+impl<'a> Sim<'a> {
+    fn new(model: &'a mut Model, m128: bool, fixed: bool) -> Sim<'a> {
+        let mut c = Cfg::new(m128);
+        c.fastload = true;
+        let mut e = emu(&c);
+        e.set_debug_interface(Dbg { break_all: true, ..Default::default() });
+        let r = model.ask(&format!("new {} {}", if m128 { 1 } else { 0 }, if fixed { 1 } else { 0 }));
+        assert!(r.starts_with("00000"), "driver: {}", r);
+        let banks = if m128 { 8 } else { 3 };
+        Sim {
+            e,
+            m128,
+            model,
+            frames: 0,
+            last_fc: 0,
+            dirty: true,
+            spec_cache: None,
+            flash_obs: vec![],
+            cells: vec![vec![Cell { val: 0, prev: 0, writer: "init", seq: 0 }; SCR_LEN]; banks],
+            seq: 0,
+            fails: vec![],
+            spec_every: 1,
+            stable_seen: 0,
+        }
+    }
+
+    fn fail(&mut self, kind: Kind, key: &str, what: String, imp: String, exp: String) {
+        if !self.fails.iter().any(|f| f.key == key) {
+            self.fails.push(Fail { kind, key: key.to_string(), what, imp, exp });
+        }
+    }
+
+    fn sync_frames(&mut self) {
+        let fc = self.e.verif_frames_count();
+        if fc >= self.last_fc {
+            self.frames += (fc - self.last_fc) as u64;
+        }
+        self.last_fc = fc;
+    }
+
+    /// one instruction of the emulated CPU (break_all stops after each instruction)
+    fn step_cpu(&mut self) {
+        self.sync_frames();
+        let r = catch_unwind(AssertUnwindSafe(|| {
+            let _ = self.e.emulate_frames(Duration::from_secs(1));
+        }));
+        if r.is_err() {
+            self.fail(Kind::ModelMismatch, "C08/panic", "the emulator panicked while executing an instruction".into(), "panic".into(), "no panic".into());
+        }
+        // emulate_frames resets the frame counter on entry
+        self.frames += self.e.verif_frames_count() as u64;
+        self.last_fc = self.e.verif_frames_count();
+    }
+
+    /// sends a state-changing op to the model and compares clock and frame count
+    fn model_op(&mut self, line: &str) {
+        let r = self.model.ask(line);
+        self.sync_frames();
+        let mut it = r.split(' ');
+        let mc = usize::from_str_radix(it.next().unwrap_or("x"), 16).unwrap_or(usize::MAX);
+        let mf = u64::from_str_radix(it.next().unwrap_or("x"), 16).unwrap_or(u64::MAX);
+        let rc = self.e.verif_frame_clocks();
+        if mc != rc || mf != self.frames & 0xFFFF {
+            let short: String = line.chars().take(40).collect();
+            self.fail(
+                Kind::ModelMismatch,
+                "C08/model/clock",
+                format!("after `{}` the emulator is at frame clock {} / {} frames, the model at {} / {}", short, rc, self.frames, mc, mf),
+                format!("{}/{}", rc, self.frames),
+                format!("{}/{}", mc, mf),
+            );
+        }
+    }
+
+    /// (ram bank, offset) of a CPU address, from the paging state the emulator reports
+    fn locate(&self, addr: u16) -> Option<(usize, usize)> {
+        let (latch, _, _) = self.e.verif_paging();
+        let bank = match (self.m128, addr >> 14) {
+            (_, 0) => return None,
+            (false, b) => (b - 1) as usize,
+            (true, 1) => 5,
+            (true, 2) => 2,
+            (true, _) => (latch & 7) as usize,
+        };
+        Some((bank, (addr & 0x3FFF) as usize))
+    }
+
+    fn visible_bank(&self) -> usize {
+        if !self.m128 {
+            0
+        } else if self.e.verif_paging().0 & 8 != 0 {
+            7
+        } else {
+            5
+        }
+    }
+
+    fn note_write(&mut self, bank: usize, off: usize, v: u8, writer: &'static str) {
+        if off < SCR_LEN {
+            self.seq += 1;
+            let c = &mut self.cells[bank][off];
+            c.prev = c.val;
+            c.val = v;
+            c.writer = writer;
+            c.seq = self.seq;
+            self.dirty = true;
+            self.spec_cache = None;
+        }
+    }
+
+    fn note_addr(&mut self, addr: u16, v: u8, writer: &'static str) {
+        if let Some((bank, off)) = self.locate(addr) {
+            self.note_write(bank, off, v, writer);
+        }
+    }
+
+    fn finish_frame(&mut self) {
+        let left = clocks_frame(self.m128) - self.e.verif_frame_clocks().min(clocks_frame(self.m128) - 1);
+        self.e.verif_wait(left);
+        self.model_op(&format!("wait {:x}", left));
+    }
+
+    fn spec_hashes(&mut self) -> (u64, u64) {
+        if let Some(s) = self.spec_cache {
+            return s;
+        }
+        let r = self.model.ask("spec");
+        let mut it = r.split(' ');
+        let h0 = u64::from_str_radix(it.next().unwrap_or("0"), 16).unwrap_or(0);
+        let h1 = u64::from_str_radix(it.next().unwrap_or("0"), 16).unwrap_or(0);
+        self.spec_cache = Some((h0, h1));
+        (h0, h1)
+    }
+
+    /// first pixel at which the real canvas differs from both phases of the spec; key by the
+    /// writer of the byte whose *previous* value explains what is shown
+    fn diagnose(&mut self) -> (String, String) {
+        let px = self.e.screen_buffer().px.clone();
+        let lines: Vec<String> = (0..256 * 192).map(|p| format!("px {:x} {:x}", p % 256, p / 256)).collect();
+        let ans = self.model.ask_many(&lines);
+        let vb = self.visible_bank();
+        // a whole-frame phase must be chosen: the one with fewer differing pixels
+        let mut diffs = [vec![], vec![]];
+        for (p, a) in ans.iter().enumerate() {
+            let t: Vec<&str> = a.split(' ').collect();
+            for ph in 0..2 {
+                let s = u8::from_str_radix(t[1 + ph], 16).unwrap_or(0xEE);
+                if s != px[p] {
+                    diffs[ph].push((p, s));
+                }
+            }
+        }
+        let ph = if diffs[0].len() <= diffs[1].len() { 0 } else { 1 };
+        let (p, s) = diffs[ph].first().copied().unwrap_or((0, 0));
+        let (x, y) = (p % 256, p / 256);
+        let cb = self.cells[vb][bitmap_off(x, y)];
+        let ca = self.cells[vb][attr_off(x, y)];
+        // which byte is stale? candidates: display byte, attribute, both; when several explain the
+        // pixel, the byte written last is the suspect
+        let mut culprit = "unknown".to_string();
+        let mut cands: Vec<(bool, bool)> = vec![(true, false), (false, true)];
+        if ca.seq > cb.seq {
+            cands.reverse();
+        }
+        cands.push((true, true));
+        'outer: for (sb, sa) in cands {
+            for phase in [false, true] {
+                let b = if sb { cb.prev } else { cb.val };
+                let a = if sa { ca.prev } else { ca.val };
+                if decode_px(b, a, x, phase) == px[p] {
+                    culprit = match (sb, sa) {
+                        (true, false) => cb.writer.to_string(),
+                        (false, true) => ca.writer.to_string(),
+                        _ if cb.writer == ca.writer => cb.writer.to_string(),
+                        _ => format!("{}+{}", cb.writer, ca.writer),
+                    };
+                    break 'outer;
+                }
+            }
+        }
+        (
+            culprit,
+            format!(
+                "{} pixel(s) differ from the standard decode of bank {} (phase {}); first at ({},{}): canvas shows {:02x}, decode of display byte {:02x}@{:04x} / attribute {:02x}@{:04x} is {:02x}",
+                diffs[ph].len(), vb, ph, x, y, px[p], cb.val, bitmap_off(x, y), ca.val, attr_off(x, y), s
+            ),
+        )
+    }
+
+    /// compares the delivered canvas; `stable` = the visible memory did not change during the frame
+    fn check_frame(&mut self, stable: bool, out: &mut Out) {
+        out.evals += 1;
+        let real = fnv(&self.e.screen_buffer().px);
+        let r = self.model.ask("frame");
+        let mh = u64::from_str_radix(r.split(' ').next().unwrap_or("0"), 16).unwrap_or(0);
+        let mut adjudicate = real != mh;
+        if stable {
+            self.stable_seen += 1;
+            if self.spec_cache.is_some() || self.stable_seen % self.spec_every == 0 {
+                adjudicate = true;
+            }
+        }
+        if !stable {
+            if real != mh {
+                self.fail(
+                    Kind::ModelMismatch,
+                    "C08/model/partial-frame",
+                    format!("frame {} (memory changed while it was drawn): canvas hash {:016x}, model {:016x}", self.frames, real, mh),
+                    format!("{:016x}", real),
+                    format!("{:016x}", mh),
+                );
+            }
+            return;
+        }
+        if !adjudicate {
+            return;
+        }
+        let (h0, h1) = self.spec_hashes();
+        out.count("adjudicated_frames", "stable frame vs stdDecode");
+        if real != h0 && real != h1 {
+            let (culprit, what) = self.diagnose();
+            self.fail(
+                Kind::SpecViolated,
+                &format!("C08/stable-frame/stale-writer={}", culprit),
+                format!("frame {}: memory unchanged for the whole frame, but {}", self.frames, what),
+                format!("{:016x}", real),
+                format!("{:016x} or {:016x}", h0, h1),
+            );
+        } else {
+            if h0 != h1 {
+                // n = frames completed before this one started
+                self.flash_obs.push((self.frames - 1, real == h1));
+                out.classes.push(format!("flash phase {} at frame%32={}", real == h1, (self.frames - 1) % 32));
+            }
+            if real != mh {
+                self.fail(
+                    Kind::ModelMismatch,
+                    "C08/model/frame",
+                    format!("frame {}: the canvas is a standard decode but not the one the model delivers (flash phase?)", self.frames),
+                    format!("{:016x}", real),
+                    format!("{:016x}", mh),
+                );
+            }
+        }
+    }
+
+    fn frame(&mut self, out: &mut Out) {
+        self.finish_frame();
+        let stable = !self.dirty;
+        self.dirty = false;
+        self.check_frame(stable, out);
+    }
+
+    fn spec_px(&mut self, x: usize, y: usize) -> (u8, u8, u8) {
+        let r = self.model.ask(&format!("px {:x} {:x}", x, y));
+        let t: Vec<u8> = r.split(' ').map(|v| u8::from_str_radix(v, 16).unwrap_or(0xEE)).collect();
+        (t[0], t[1], t[2])
+    }
+
+    fn set_clock(&mut self, t: usize) {
+        // the clock hook may only move forward within a frame
+        if t < self.e.verif_frame_clocks() {
+            self.finish_frame();
+            self.dirty = true; // the frame just delivered is not compared
+        }
+        let t = t.max(self.e.verif_frame_clocks()).min(clocks_frame(self.m128) - 1);
+        self.e.verif_set_frame_clocks(t);
+        self.model_op(&format!("setclk {:x}", t));
+    }
+
+    fn load_pages_note(&mut self, pages: &[(u8, Vec<u8>)], writer: &'static str) {
+        for (b, data) in pages {
+            for (off, v) in data.iter().enumerate().take(SCR_LEN) {
+                self.note_write(*b as usize, off, *v, writer);
+            }
+        }
+    }
+
+    fn apply(&mut self, op: &Op, out: &mut Out) {
+        out.count("ops", op.kind());
+        match op {
+            Op::Wait(n) => {
+                let before = self.frames;
+                self.e.verif_wait(*n);
+                self.model_op(&format!("wait {:x}", n));
+                if self.frames != before {
+                    self.dirty = true;
+                }
+            }
+            Op::SetClk(t) => self.set_clock(*t),
+            Op::W(a, v, k) => {
+                self.e.verif_write_mem(*a, *v, *k);
+                self.note_addr(*a, *v, "cpu");
+                self.model_op(&format!("w {:04x} {:02x} {:x}", a, v, k));
+            }
+            Op::WBlk(a, k, bytes) => {
+                for (i, v) in bytes.iter().enumerate() {
+                    let addr = a.wrapping_add(i as u16);
+                    self.e.verif_write_mem(addr, *v, *k);
+                    self.note_addr(addr, *v, "cpu");
+                }
+                self.model_op(&format!("wblk {:04x} {:x} {}", a, k, hex(bytes)));
+            }
+            Op::Z80(a, v) => {
+                // LD (HL),A at 0x8000, executed by the emulated CPU
+                self.e.verif_write_mem(0x8000, 0x77, 0);
+                self.model_op("w 8000 77 0");
+                let cpu = self.e.verif_cpu();
+                cpu.regs.set_hl(*a);
+                cpu.regs.set_acc(*v);
+                cpu.regs.set_pc(0x8000);
+                cpu.regs.set_sp(0x9000);
+                cpu.regs.set_iff1(false);
+                cpu.halted = false;
+                self.step_cpu();
+                self.note_addr(*a, *v, "z80");
+                // opcode fetch (4 T, uncontended), then the write cycle of LD (HL),A: 3 T after contention
+                let _ = self.model.ask("wait 4");
+                let _ = self.model.ask(&format!("w {:04x} {:02x} 3", a, v));
+                self.model_op("status");
+            }
+            Op::Tape(dest, bytes) => {
+                // one TAP block: flag 0xFF, data, parity; LD-BYTES entered at the trap address
+                self.finish_frame();
+                self.dirty = true;
+                let mut blk = vec![0xFFu8];
+                blk.extend_from_slice(bytes);
+                let par = blk.iter().fold(0u8, |a, b| a ^ b);
+                blk.push(par);
+                let mut tap = vec![(blk.len() & 0xFF) as u8, (blk.len() >> 8) as u8];
+                tap.extend_from_slice(&blk);
+                let ok = self.e.load_tape(Tape::Tap(VAsset::new(tap))).is_ok();
+                let c0 = self.e.verif_frame_clocks();
+                let cpu = self.e.verif_cpu();
+                cpu.regs.set_af(0xFF01); // A = expected flag, F = carry (LOAD)
+                cpu.regs.swap_af_alt();
+                cpu.regs.set_ix(*dest);
+                cpu.regs.set_de(bytes.len() as u16);
+                cpu.regs.set_sp(0x9000);
+                cpu.regs.set_pc(0x056A);
+                cpu.regs.set_iff1(false);
+                cpu.halted = false;
+                self.step_cpu();
+                let ix = self.e.verif_cpu().regs.get_ix();
+                let loaded = ix.wrapping_sub(*dest) as usize;
+                if !ok || loaded != bytes.len() {
+                    self.fail(
+                        Kind::ModelMismatch,
+                        "C08/harness/fastload-not-triggered",
+                        format!("fast-load of {} bytes to {:04x} moved IX by {}", bytes.len(), dest, loaded),
+                        format!("{}", loaded),
+                        format!("{}", bytes.len()),
+                    );
+                }
+                for (i, v) in bytes.iter().enumerate().take(loaded) {
+                    self.note_addr(dest.wrapping_add(i as u16), *v, "tape");
+                }
+                let delta = self.e.verif_frame_clocks() - c0;
+                let _ = self.model.ask(&format!("wiblk {:04x} {}", dest, hex(&bytes[..loaded.min(bytes.len())])));
+                self.model_op(&format!("wait {:x}", delta));
+            }
+            Op::Scr(bytes) => {
+                let ok = self.e.load_screen(Screen::Scr(VAsset::new(bytes.clone()))).is_ok();
+                if ok {
+                    let bank = if self.m128 { 5 } else { 0 };
+                    self.load_pages_note(&[(bank as u8, bytes.clone())], "scr");
+                    self.model_op(&format!("scr {}", hex(bytes)));
+                }
+            }
+            Op::Sna48(scr) => {
+                self.finish_frame();
+                self.dirty = true;
+                let mut f = vec![0u8; 27];
+                f[23] = 0x00;
+                f[24] = 0x90; // SP = 0x9000
+                f[25] = 1;
+                let mut ram = vec![0u8; 49152];
+                ram[..scr.len().min(SCR_LEN)].copy_from_slice(&scr[..scr.len().min(SCR_LEN)]);
+                f.extend_from_slice(&ram);
+                let c0 = self.e.verif_frame_clocks();
+                let ok = self.e.load_snapshot(Snapshot::Sna(VAsset::new(f))).is_ok();
+                if ok {
+                    let mut page = ram[..16384].to_vec();
+                    page.truncate(16384);
+                    self.load_pages_note(&[(0, page.clone())], "sna");
+                    let delta = self.e.verif_frame_clocks() - c0;
+                    let _ = self.model.ask(&format!("pages 0 {} 1 {} 2 {}", hex(&page), hex(&ram[16384..32768]), hex(&ram[32768..])));
+                    self.model_op(&format!("wait {:x}", delta));
+                }
+            }
+            Op::Sna128(latch, b5, b7) => {
+                self.finish_frame();
+                self.dirty = true;
+                let mut f = vec![0u8; 27];
+                f[24] = 0x90;
+                f[25] = 1;
+                let mut page = |src: &Vec<u8>| {
+                    let mut p = vec![0u8; 16384];
+                    p[..src.len().min(SCR_LEN)].copy_from_slice(&src[..src.len().min(SCR_LEN)]);
+                    p
+                };
+                let p5 = page(b5);
+                let p7 = page(b7);
+                let zero = vec![0u8; 16384];
+                let n = latch & 7;
+                let bank_data = |b: u8| -> &Vec<u8> {
+                    if b == 5 {
+                        &p5
+                    } else if b == 7 {
+                        &p7
+                    } else {
+                        &zero
+                    }
+                };
+                f.extend_from_slice(bank_data(5));
+                f.extend_from_slice(bank_data(2));
+                f.extend_from_slice(bank_data(n));
+                f.extend_from_slice(&[0, 0, *latch, 0]);
+                for b in [0u8, 1, 3, 4, 6, 7] {
+                    if b != n {
+                        f.extend_from_slice(bank_data(b));
+                    }
+                }
+                let c0 = self.e.verif_frame_clocks();
+                let ok = self.e.load_snapshot(Snapshot::Sna(VAsset::new(f))).is_ok();
+                if ok {
+                    let _ = self.model.ask(&format!("set7ffd {:02x}", latch));
+                    self.load_pages_note(&[(5, p5.clone()), (7, p7.clone())], "sna");
+                    let delta = self.e.verif_frame_clocks() - c0;
+                    let _ = self.model.ask(&format!("pages 5 {} 7 {}", hex(&p5), hex(&p7)));
+                    self.model_op(&format!("wait {:x}", delta));
+                }
+            }
+            Op::Szx(pages) => {
+                self.finish_frame();
+                self.dirty = true;
+                let mut f = b"ZXST".to_vec();
+                f.extend_from_slice(&[1, 4, if self.m128 { 2 } else { 1 }, 0]);
+                let mut line = "pages".to_string();
+                let mut noted = vec![];
+                for (p, src) in pages {
+                    let mut data = vec![0u8; 16384];
+                    data[..src.len().min(SCR_LEN)].copy_from_slice(&src[..src.len().min(SCR_LEN)]);
+                    f.extend_from_slice(b"RAMP");
+                    f.extend_from_slice(&(3u32 + 16384).to_le_bytes());
+                    f.extend_from_slice(&[0, 0, *p]);
+                    f.extend_from_slice(&data);
+                    // 48K: SZX page numbers 5,2,0 are the emulator's RAM pages 0,1,2
+                    let bank = if self.m128 {
+                        *p
+                    } else {
+                        match *p {
+                            5 => 0,
+                            2 => 1,
+                            0 => 2,
+                            x => x,
+                        }
+                    };
+                    line.push_str(&format!(" {:x} {}", bank, hex(&data)));
+                    noted.push((bank, data));
+                }
+                let c0 = self.e.verif_frame_clocks();
+                let ok = self.e.load_snapshot(Snapshot::Szx(VAsset::new(f))).is_ok();
+                if ok {
+                    self.load_pages_note(&noted, "szx");
+                    let delta = self.e.verif_frame_clocks() - c0;
+                    let _ = self.model.ask(&line);
+                    self.model_op(&format!("wait {:x}", delta));
+                }
+            }
+            Op::Out(p, v) => {
+                let before = self.e.verif_paging();
+                self.e.verif_write_io(*p, *v);
+                if self.e.verif_paging() != before {
+                    self.dirty = true;
+                    self.spec_cache = None;
+                }
+                self.model_op(&format!("out {:04x} {:02x}", p, v));
+            }
+            Op::Poke(ps) => {
+                let list = PokeList(ps.iter().map(|(a, v)| PokeAction::mem(*a, *v)).collect());
+                self.e.execute_poke(list);
+                for (a, v) in ps {
+                    self.note_addr(*a, *v, "poke");
+                    let _ = self.model.ask(&format!("poke {:04x} {:02x}", a, v));
+                }
+                self.model_op("status");
+            }
+            Op::Frame => self.frame(out),
+            Op::Probe(t, a, v) => self.probe(*t, *a, *v, out),
+        }
+    }
+
+    /// Beam-relative probe. The byte at `a` (visible bank, through the 0x4000 window) is written
+    /// when the frame clock is `t` (plus contention); the 8 pixels of the display byte / the
+    /// first pixel row of the attribute cell at that beam line are then read from the frame in
+    /// progress and from the next one.
+    fn probe(&mut self, t: usize, a: u16, v: u8, out: &mut Out) {
+        let (bank, off) = match self.locate(a) {
+            Some(x) if x.1 < SCR_LEN && x.0 == self.visible_bank() => x,
+            _ => return,
+        };
+        let _ = bank;
+        // start from a frame boundary with a clean frame behind us
+        self.finish_frame();
+        self.dirty = false;
+        self.set_clock(t);
+        // pixels under the byte: display byte -> its 8 pixels; attribute -> 8 pixels of every line of the cell
+        let rows: Vec<(usize, usize)> = if off < 0x1800 {
+            let y = ((off >> 8) & 7) | ((off >> 2) & 0x38) | ((off >> 5) & 0xC0);
+            vec![((off & 31), y)]
+        } else {
+            let o = off - 0x1800;
+            (0..8).map(|i| (o % 32, (o / 32) * 8 + i)).collect()
+        };
+        let mut old = vec![];
+        for (col, y) in &rows {
+            for i in 0..8 {
+                old.push(self.spec_px(col * 8 + i, *y));
+            }
+        }
+        self.e.verif_write_mem(a, v, 0);
+        self.note_addr(a, v, "cpu");
+        self.model_op(&format!("w {:04x} {:02x} 0", a, v));
+        let tw = self.e.verif_frame_clocks();
+        let mut new = vec![];
+        for (col, y) in &rows {
+            for i in 0..8 {
+                new.push(self.spec_px(col * 8 + i, *y));
+            }
+        }
+        let first_pixel = if self.m128 { 14362 } else { 14336 };
+        let line = if self.m128 { 228 } else { 224 };
+        // frame in progress
+        self.finish_frame();
+        self.dirty = false;
+        self.check_model_only(out);
+        let cur = self.e.screen_buffer().px.clone();
+        // next frame: memory unchanged
+        self.finish_frame();
+        self.check_frame(true, out);
+        self.dirty = false;
+        let next = self.e.screen_buffer().px.clone();
+        for (ri, (col, y)) in rows.iter().enumerate() {
+            let fetch = first_pixel + y * line + 4 * col;
+            let class = if tw + 8 <= fetch {
+                "before"
+            } else if fetch + 8 <= tw {
+                "after"
+            } else {
+                "margin"
+            };
+            out.evals += 1;
+            out.classes.push(format!("probe {} {} dt={}", if off < 0x1800 { "bitmap" } else { "attr" }, class, (tw as i64 - fetch as i64).clamp(-24, 24)));
+            out.count("probe_class", class);
+            for i in 0..8 {
+                let p = y * 256 + col * 8 + i;
+                let (_, o0, o1) = old[ri * 8 + i];
+                let (_, n0, n1) = new[ri * 8 + i];
+                let shows_new = cur[p] == n0 || cur[p] == n1;
+                let shows_old = cur[p] == o0 || cur[p] == o1;
+                let bad = match class {
+                    "before" => !shows_new,
+                    "after" => !shows_old,
+                    _ => !(shows_new || shows_old),
+                };
+                if bad {
+                    self.fail(
+                        Kind::SpecViolated,
+                        &format!("C08/beam/{}", class),
+                        format!(
+                            "byte {:04x} <- {:02x} written at frame clock {} ({} T {} the beam reaches line {} column {}): pixel ({},{}) of that frame shows {:02x}; old decode {:02x}, new decode {:02x}",
+                            a, v, tw, (tw as i64 - fetch as i64).abs(), if tw < fetch { "before" } else { "after" }, y, col, col * 8 + i, y, cur[p], o0, n0
+                        ),
+                        format!("{:02x}", cur[p]),
+                        if class == "before" { format!("{:02x}", n0) } else { format!("{:02x}", o0) },
+                    );
+                }
+                if !(next[p] == n0 || next[p] == n1) {
+                    self.fail(
+                        Kind::SpecViolated,
+                        "C08/beam/next-frame",
+                        format!("byte {:04x} <- {:02x} written at frame clock {}: pixel ({},{}) of the NEXT frame shows {:02x}, decode of the new byte is {:02x}", a, v, tw, col * 8 + i, y, next[p], n0),
+                        format!("{:02x}", next[p]),
+                        format!("{:02x}", n0),
+                    );
+                }
+            }
+        }
+    }
+
+    fn check_model_only(&mut self, out: &mut Out) {
+        out.evals += 1;
+        let real = fnv(&self.e.screen_buffer().px);
+        let r = self.model.ask("frame");
+        let mh = u64::from_str_radix(r.split(' ').next().unwrap_or("0"), 16).unwrap_or(0);
+        if real != mh {
+            self.fail(
+                Kind::ModelMismatch,
+                "C08/model/partial-frame",
+                format!("frame {} (a byte was written while it was drawn): canvas hash {:016x}, model {:016x}", self.frames, real, mh),
+                format!("{:016x}", real),
+                format!("{:016x}", mh),
+            );
+        }
+    }
+
+    /// spec adjudication of the flash phases seen in this run
+    fn check_flash(&mut self) {
+        if self.flash_obs.is_empty() {
+            return;
+        }
+        let mut line = "flashok".to_string();
+        for (n, p) in &self.flash_obs {
+            line.push_str(&format!(" {:x}:{}", n, if *p { 1 } else { 0 }));
+        }
+        if self.model.ask(&line) != "ok" {
+            let obs: Vec<String> = self.flash_obs.iter().map(|(n, p)| format!("{}:{}", n, if *p { 1 } else { 0 })).collect();
+            self.fail(
+                Kind::SpecViolated,
+                "C08/flash-period",
+                format!("FLASH cells do not swap every 16 frames for any window alignment; (completed frames:phase) = {}", obs.join(" ")),
+                obs.join(" "),
+                "phase n = ((n+k)/16) mod 2 for some k".into(),
+            );
+        }
+    }
+}
+
+/// Runs a case on a fresh emulator and a fresh model. With pokes in the case the repaired model
+/// variant is tried when the real code satisfies the spec (so a repaired tree passes cleanly).
+fn run_case(model: &mut Model, case: &Case, spec_every: u64, out: &mut Out) -> Vec<Fail> {
+    let has_poke = case.ops.iter().any(|o| matches!(o, Op::Poke(_)));
+    let mut fails = run_case_variant(model, case, false, spec_every, out);
+    if has_poke && !fails.is_empty() && !fails.iter().any(|f| f.kind == Kind::SpecViolated) {
+        // the code differs from the model of the unrepaired tree without violating the spec:
+        // accept it if it is the repaired behaviour
+        let mut dummy = Out::default();
+        let fixed = run_case_variant(model, case, true, spec_every, &mut dummy);
+        if fixed.is_empty() {
+            out.count("poke_variant", "repaired (poke refreshes the screen cache)");
+            fails = fixed;
+        }
+    } else if has_poke {
+        out.count("poke_variant", if fails.is_empty() { "no visible effect" } else { "as in the unrepaired tree" });
+    }
+    fails
+}
+
+fn run_case_variant(model: &mut Model, case: &Case, fixed: bool, spec_every: u64, out: &mut Out) -> Vec<Fail> {
+    let mut sim = Sim::new(model, case.m128, fixed);
+    sim.spec_every = spec_every.max(1);
+    for op in &case.ops {
+        let r = catch_unwind(AssertUnwindSafe(|| sim.apply(op, out)));
+        if r.is_err() {
+            sim.fail(
+                Kind::ModelMismatch,
+                "C08/panic",
+                format!("the emulator panicked during `{}`", op.text().chars().take(60).collect::<String>()),
+                "panic".into(),
+                "no panic".into(),
+            );
+            break;
+        }
+    }
+    sim.check_flash();
+    sim.fails
+}
+
+// ---------------------------------------------------------------------------------------------
+// generators
+
+fn random_screen(r: &mut Rng) -> Vec<u8> {
+    let mut s = vec![0u8; SCR_LEN];
+    let style = r.below(5);
+    for (i, b) in s.iter_mut().enumerate().take(0x1800) {
+        *b = match style {
+            0 => r.u8(),
+            1 => {
+                if r.chance(1, 8) {
+                    r.u8()
+                } else {
+                    0
+                }
+            }
+            2 => (i as u8).wrapping_mul(37) ^ r.u8() & 0x0F,
+            3 => 1u8 << r.below(8),
+            _ => r.u8() | r.u8(),
+        };
+    }
+    for b in s.iter_mut().skip(0x1800) {
+        *b = match r.below(6) {
+            0 => r.u8() & 0x7F,        // no flash
+            1 => r.u8() | 0x80,        // flash
+            2 => r.u8() | 0xC0,        // flash + bright
+            3 => r.u8() & 0x3F | 0x40, // bright only
+            _ => r.u8(),
+        };
+    }
+    s
+}
+
+/// a byte value at a screen offset that is visible: attributes get ink != paper
+fn visible_byte(r: &mut Rng, off: usize) -> u8 {
+    if off < 0x1800 {
+        r.u8() | 1u8 << r.below(8)
+    } else {
+        let ink = r.below(8) as u8;
+        let paper = (ink + 1 + r.below(7) as u8) & 7;
+        ink | paper << 3 | (r.u8() & 0xC0)
+    }
+}
+
+struct Gen {
+    rng: Rng,
+}
+
+impl Gen {
+    /// ops that put `scr` into RAM bank `bank` of the machine through `path`
+    fn load_ops(&mut self, m128: bool, path: &str, bank: u8, scr: &[u8], other: &[u8]) -> Vec<Op> {
+        let r = &mut self.rng;
+        let mut ops = vec![];
+        let latch_for = |b: u8| b; // page bank b at 0xC000
+        match path {
+            "cpu-4000" => ops.push(Op::WBlk(0x4000, r.below(4) as usize, scr.to_vec())),
+            "cpu-c000" => {
+                ops.push(Op::Out(0x7FFD, latch_for(bank)));
+                ops.push(Op::WBlk(0xC000, r.below(4) as usize, scr.to_vec()));
+            }
+            "z80" => {
+                // bulk through the CPU write cycle, a sample re-written by a real LD (HL),A
+                let mut base = scr.to_vec();
+                let idx: Vec<usize> = (0..24).map(|_| r.below(SCR_LEN as u64) as usize).collect();
+                for i in &idx {
+                    base[*i] ^= 0xFF;
+                }
+                let win: u16 = if m128 && bank == 7 { 0xC000 } else { 0x4000 };
+                if win == 0xC000 {
+                    ops.push(Op::Out(0x7FFD, bank));
+                }
+                ops.push(Op::WBlk(win, 3, base));
+                for i in idx {
+                    ops.push(Op::Z80(win + i as u16, scr[i]));
+                }
+            }
+            "tape" => {
+                if m128 {
+                    // the trap needs ROM 1 (48K BASIC) paged in
+                    ops.push(Op::Out(0x7FFD, 0x10 | if bank == 7 { 7 } else { 0 }));
+                }
+                ops.push(Op::Tape(if m128 && bank == 7 { 0xC000 } else { 0x4000 }, scr.to_vec()));
+            }
+            "scr" => ops.push(Op::Scr(scr.to_vec())),
+            "sna" => {
+                if m128 {
+                    let latch = (r.u8() & 0x1F) & !0x20;
+                    let (b5, b7) = if bank == 5 { (scr, other) } else { (other, scr) };
+                    ops.push(Op::Sna128(latch, b5.to_vec(), b7.to_vec()));
+                } else {
+                    ops.push(Op::Sna48(scr.to_vec()));
+                }
+            }
+            "szx" => {
+                if m128 {
+                    let (b5, b7) = if bank == 5 { (scr, other) } else { (other, scr) };
+                    ops.push(Op::Szx(vec![(5, b5.to_vec()), (7, b7.to_vec())]));
+                } else {
+                    ops.push(Op::Szx(vec![(5, scr.to_vec())]));
+                }
+            }
+            "poke" => {
+                let win: u16 = if m128 && bank == 7 { 0xC000 } else { 0x4000 };
+                if win == 0xC000 {
+                    ops.push(Op::Out(0x7FFD, bank));
+                }
+                ops.push(Op::Poke(scr.iter().enumerate().map(|(i, v)| (win + i as u16, *v)).collect()));
+            }
+            _ => unreachable!(),
+        }
+        ops
+    }
+}
+
+const PATHS: [&str; 7] = ["cpu-4000", "cpu-c000", "z80", "tape", "scr", "sna", "szx"];
+
+fn violation_of(case: &Case, f: &Fail) -> Violation {
+    Violation {
+        kind: f.kind,
+        key: f.key.clone(),
+        what: f.what.clone(),
+        correspondence: CORR.into(),
+        case: J::obj(vec![("text", J::s(case.text()))]),
+        implementation: f.imp.clone(),
+        expected: f.exp.clone(),
+    }
+}
+
+/// ddmin over the op list, then zeroing of byte strings, keeping a failure with the same key
+fn shrink(model: &mut Model, case: &Case, key: &str) -> Case {
+    let mut budget = 60usize;
+    let mut fails = |model: &mut Model, c: &Case, budget: &mut usize| -> bool {
+        if *budget == 0 {
+            return false;
+        }
+        *budget -= 1;
+        let mut o = Out::default();
+        run_case(model, c, 1, &mut o).iter().any(|f| f.key == key)
+    };
+    let mut cur = case.clone();
+    let mut chunk = (cur.ops.len() / 2).max(1);
+    loop {
+        let mut i = 0;
+        let mut changed = false;
+        while i < cur.ops.len() {
+            let end = (i + chunk).min(cur.ops.len());
+            let mut cand = cur.clone();
+            cand.ops.drain(i..end);
+            if !cand.ops.is_empty() && fails(model, &cand, &mut budget) {
+                cur = cand;
+                changed = true;
+            } else {
+                i = end;
+            }
+        }
+        if (chunk == 1 && !changed) || budget == 0 {
+            break;
+        }
+        if !changed || chunk > 1 {
+            chunk = (chunk / 2).max(1);
+        }
+    }
+    // shorten / zero byte strings
+    for i in 0..cur.ops.len() {
+        loop {
+            let cand_op = match &cur.ops[i] {
+                Op::WBlk(a, k, b) if b.len() > 1 => {
+                    // keep the half that still fails
+                    let h = b.len() / 2;
+                    vec![Op::WBlk(*a, *k, b[..h].to_vec()), Op::WBlk(a.wrapping_add(h as u16), *k, b[h..].to_vec())]
+                }
+                Op::Poke(ps) if ps.len() > 1 => {
+                    let h = ps.len() / 2;
+                    vec![Op::Poke(ps[..h].to_vec()), Op::Poke(ps[h..].to_vec())]
+                }
+                Op::Tape(a, b) if b.len() > 1 => {
+                    let h = b.len() / 2;
+                    vec![Op::Tape(*a, b[..h].to_vec()), Op::Tape(a.wrapping_add(h as u16), b[h..].to_vec())]
+                }
+                Op::Scr(b) if b.iter().any(|x| *x != 0) => {
+                    let nz: Vec<usize> = (0..b.len()).filter(|i| b[*i] != 0).collect();
+                    let mut lo = b.clone();
+                    let mut hi = b.clone();
+                    for j in &nz[..nz.len() / 2] {
+                        hi[*j] = 0;
+                    }
+                    for j in &nz[nz.len() / 2..] {
+                        lo[*j] = 0;
+                    }
+                    if nz.len() < 2 {
+                        vec![]
+                    } else {
+                        vec![Op::Scr(lo), Op::Scr(hi)]
+                    }
+                }
+                _ => vec![],
+            };
+            let mut progressed = false;
+            for c in cand_op {
+                let mut cand = cur.clone();
+                cand.ops[i] = c;
+                if fails(model, &cand, &mut budget) {
+                    cur = cand;
+                    progressed = true;
+                    break;
+                }
+            }
+            if !progressed {
+                break;
+            }
+        }
+    }
+    cur
+}
+
+pub fn run(o: &Opts) -> Report {
     let mut rep = Report::new("C08");
-    rep.notes.push("not built yet".into());
+    rep.rule = "real Emulator with recording frame buffers vs. the Lean model, per delivered frame (FNV-1a of the \
+256x192 canvas), the executable stdDecode adjudicating every frame during which the visible memory did not change. \
+(1) random 6912-byte screens (five bitmap styles, FLASH/BRIGHT-biased attributes) loaded through each path \
+{CPU write cycle via 0x4000, via 0xC000 with bank 5/7 paged, real LD (HL),A, tape fast-load, SCR, SNA, SZX} on both \
+machines, into the displayed and the hidden 128K screen, followed by single-byte perturbation frames (16 bytes per \
+frame, alternating CPU/Z80 paths) that together cover every one of the 6912 offsets of every screen bank; \
+(2) 48-frame runs without memory change for the flash phase (both machines, both 128K screens); (3) beam-relative \
+probes: one byte written at frame clock fetch(line,col)+d, d in -40..40, pixels read from the frame in progress and \
+the next one; (4) paging-latch histories switching the displayed 128K screen, including the lock bit; (5) pokes \
+(execute_poke) into screen memory. distinct/non-trivial = distinct (path, machine, bank, visible) load classes, flash \
+phases by frame number mod 32, probe (byte kind, before/after/margin, dt) classes, perturbed-offset classes (offset/256)"
+        .into();
+    let mut model = Model::spawn(&o.model, "C08");
+
+    if let Some(text) = &o.replay {
+        let case = Case::parse(text);
+        rep.sample(J::s(text.chars().take(300).collect::<String>()));
+        let mut out = Out::default();
+        let fails = run_case(&mut model, &case, 1, &mut out);
+        rep.evaluations += out.evals;
+        for f in fails {
+            rep.violation(violation_of(&case, &f));
+        }
+        return rep;
+    }
+
+    // ---- generate all cases deterministically from the seed
+    let mut g = Gen { rng: Rng::new(o.seed ^ 0xC08) };
+    let mut cases: Vec<(String, Case, u64)> = vec![]; // (class label, case, spec_every)
+
+    // (1) screens x paths, then perturbation frames covering every offset of every screen bank
+    let screens = o.n(96, 6000) as usize;
+    // offsets still to perturb, per (machine, bank)
+    let mut todo: Vec<(bool, u8, Vec<usize>)> = vec![];
+    for (m128, bank) in [(false, 0u8), (true, 5), (true, 7)] {
+        let mut offs: Vec<usize> = (0..SCR_LEN).collect();
+        // Fisher-Yates
+        for i in (1..offs.len()).rev() {
+            let j = g.rng.below(i as u64 + 1) as usize;
+            offs.swap(i, j);
+        }
+        todo.push((m128, bank, offs));
+    }
+    for i in 0..screens {
+        let path = PATHS[i % PATHS.len()];
+        let m128 = (i / PATHS.len()) % 3 != 0 || path == "cpu-c000";
+        let bank: u8 = if !m128 {
+            0
+        } else if path == "scr" || path == "cpu-4000" {
+            5
+        } else if (i / PATHS.len()) % 3 == 1 {
+            5
+        } else {
+            7
+        };
+        let scr = random_screen(&mut g.rng);
+        let other = random_screen(&mut g.rng);
+        // which 128K screen is displayed while loading / afterwards
+        let show7 = m128 && g.rng.bool();
+        let mut ops = vec![];
+        if m128 && path != "sna" {
+            ops.push(Op::Out(0x7FFD, if show7 { 0x08 } else { 0x00 }));
+        }
+        if path == "scr" || path == "tape" || g.rng.bool() {
+            // the beam somewhere inside the frame when the bytes arrive
+            ops.push(Op::SetClk(g.rng.below(69000) as usize));
+        }
+        let mut lo = g.load_ops(m128, path, bank, &scr, &other);
+        if m128 {
+            // keep the displayed-screen bit while paging banks at 0xC000
+            for op in lo.iter_mut() {
+                if let Op::Out(0x7FFD, v) = op {
+                    *v |= if show7 { 0x08 } else { 0 };
+                }
+            }
+        }
+        ops.extend(lo);
+        ops.push(Op::Frame);
+        ops.push(Op::Frame);
+        if m128 {
+            // show the loaded bank (and, later, the other one)
+            let keep_rom = if path == "tape" { 0x10 } else { 0 };
+            ops.push(Op::Out(0x7FFD, keep_rom | if bank == 7 { 0x08 | 7 } else { 5 }));
+            ops.push(Op::Frame);
+            ops.push(Op::Frame);
+        }
+        // perturbation frames
+        let t = todo.iter_mut().find(|t| t.0 == m128 && t.1 == bank).unwrap();
+        let per_frame = 16;
+        let frames = o.n(3, 6) as usize;
+        for f in 0..frames {
+            if t.2.is_empty() {
+                break;
+            }
+            for k in 0..per_frame {
+                if let Some(off) = t.2.pop() {
+                    let win: u16 = if m128 && bank == 7 { 0xC000 } else { 0x4000 };
+                    let v = visible_byte(&mut g.rng, off) ^ scr[off] | 1;
+                    let a = win + off as u16;
+                    ops.push(if (f + k) % 4 == 3 { Op::Z80(a, v) } else { Op::W(a, v, g.rng.below(5) as usize) });
+                }
+            }
+            ops.push(Op::Frame);
+            ops.push(Op::Frame);
+        }
+        let vis = !m128 || (bank == 7) == show7;
+        cases.push((format!("load path={} m128={} bank={} visible-while-loading={}", path, m128, bank, vis), Case { m128, ops }, 1));
+    }
+    // leftover offsets (quick tier: the screens above do not reach all of them): dense perturbation cases
+    for (m128, bank, offs) in todo.iter_mut() {
+        while !offs.is_empty() {
+            let mut ops = vec![];
+            let win: u16 = if *m128 && *bank == 7 { 0xC000 } else { 0x4000 };
+            if *m128 {
+                ops.push(Op::Out(0x7FFD, if *bank == 7 { 0x08 | 7 } else { 5 }));
+            }
+            // visible background: white ink on black paper everywhere
+            let mut bg = vec![0u8; SCR_LEN];
+            for b in bg.iter_mut().skip(0x1800) {
+                *b = 0x07;
+            }
+            ops.push(Op::WBlk(win, 0, bg));
+            ops.push(Op::Frame);
+            for f in 0..12 {
+                for k in 0..16 {
+                    if let Some(off) = offs.pop() {
+                        let v = visible_byte(&mut g.rng, off);
+                        let a = win + off as u16;
+                        ops.push(if (f + k) % 5 == 4 { Op::Z80(a, v) } else { Op::W(a, v, g.rng.below(5) as usize) });
+                    }
+                }
+                ops.push(Op::Frame);
+                ops.push(Op::Frame);
+            }
+            cases.push((format!("perturb m128={} bank={}", m128, bank), Case { m128: *m128, ops }, 4));
+        }
+    }
+
+    // (2) flash runs
+    for (m128, bank) in [(false, 0u8), (true, 5), (true, 7)] {
+        let mut scr = random_screen(&mut g.rng);
+        for b in scr.iter_mut().skip(0x1800).step_by(3) {
+            *b |= 0x80;
+            if *b & 7 == (*b >> 3) & 7 {
+                *b ^= 1;
+            }
+        }
+        let mut ops = vec![];
+        if m128 {
+            ops.push(Op::Out(0x7FFD, if bank == 7 { 0x08 | 7 } else { 5 }));
+        }
+        // a random number of frames first, so that the run starts at an arbitrary phase
+        for _ in 0..g.rng.below(20) {
+            ops.push(Op::Wait(clocks_frame(m128)));
+        }
+        ops.push(Op::WBlk(if bank == 7 { 0xC000 } else { 0x4000 }, 0, scr));
+        for _ in 0..o.n(50, 200) {
+            ops.push(Op::Frame);
+        }
+        cases.push((format!("flash m128={} bank={}", m128, bank), Case { m128, ops }, 1));
+    }
+
+    // (3) beam-relative probes
+    let probes = o.n(160, 20000) as usize;
+    let per_case = 8;
+    for i in 0..probes / per_case {
+        let m128 = i % 2 == 1;
+        let show7 = m128 && i % 4 == 3;
+        let mut ops = vec![];
+        if m128 {
+            ops.push(Op::Out(0x7FFD, if show7 { 0x08 | 7 } else { 5 }));
+        }
+        // through the 0x4000 window only bank 5 is reachable; probes on bank 7 go through 0xC000
+        let win: u16 = if show7 { 0xC000 } else { 0x4000 };
+        let mut bg = random_screen(&mut g.rng);
+        for b in bg.iter_mut().skip(0x1800) {
+            if *b & 7 == (*b >> 3) & 7 {
+                *b ^= 7;
+            }
+        }
+        ops.push(Op::WBlk(win, 0, bg.clone()));
+        ops.push(Op::Frame);
+        for _ in 0..per_case {
+            let off = if g.rng.chance(2, 3) { g.rng.below(0x1800) as usize } else { 0x1800 + g.rng.below(768) as usize };
+            let (y, col) = if off < 0x1800 {
+                (((off >> 8) & 7) | ((off >> 2) & 0x38) | ((off >> 5) & 0xC0), off & 31)
+            } else {
+                (((off - 0x1800) / 32) * 8 + g.rng.below(8) as usize, (off - 0x1800) % 32)
+            };
+            let fetch = (if m128 { 14362 } else { 14336 }) + y * (if m128 { 228 } else { 224 }) + 4 * col;
+            let d: i64 = match g.rng.below(4) {
+                0 => -(g.rng.range(8, 40) as i64),
+                1 => g.rng.range(8, 40) as i64,
+                2 => g.rng.range(0, 14) as i64 - 7,
+                _ => g.rng.range(0, 400) as i64 - 200,
+            };
+            let t = (fetch as i64 + d).max(0) as usize;
+            let v = visible_byte(&mut g.rng, off) ^ bg[off] | 1;
+            bg[off] = v;
+            ops.push(Op::Probe(t, win + off as u16, v));
+        }
+        cases.push((format!("probe m128={} show7={}", m128, show7), Case { m128, ops }, 1));
+    }
+
+    // (4) paging-latch histories
+    for i in 0..o.n(12, 600) {
+        let mut ops = vec![];
+        let a = random_screen(&mut g.rng);
+        let b = random_screen(&mut g.rng);
+        ops.push(Op::Out(0x7FFD, 5));
+        ops.push(Op::WBlk(0xC000, 0, a));
+        ops.push(Op::Out(0x7FFD, 7));
+        ops.push(Op::WBlk(0xC000, 0, b));
+        ops.push(Op::Frame);
+        for k in 0..10 {
+            let mut v = g.rng.u8() & 0x1F;
+            if k >= 6 && i % 3 == 0 {
+                v |= if k == 6 { 0x20 } else { g.rng.u8() & 0x20 };
+            }
+            let port = *g.rng.pick(&[0x7FFDu16, 0x7FFD, 0x3FFD, 0x0001, 0x7FFC, 0xFFFD, 0xBFFD]);
+            ops.push(Op::Out(port, v));
+            if g.rng.bool() {
+                let off = g.rng.below(SCR_LEN as u64) as usize;
+                ops.push(Op::W(0xC000 + off as u16, visible_byte(&mut g.rng, off), 3));
+            }
+            ops.push(Op::Frame);
+            ops.push(Op::Frame);
+        }
+        cases.push(("latch history".into(), Case { m128: true, ops }, 2));
+    }
+
+    // (5) pokes
+    let poke_cases = o.n(9, 300) as usize;
+    for i in 0..poke_cases {
+        let m128 = i % 3 != 0;
+        let bank: u8 = if !m128 {
+            0
+        } else if i % 3 == 1 {
+            5
+        } else {
+            7
+        };
+        let mut ops = vec![];
+        if i == 0 {
+            // the documented minimal case
+            ops.push(Op::Poke(vec![(0x4000, 0xFF), (0x5800, 0x07)]));
+        } else if i < 6 {
+            let scr = random_screen(&mut g.rng);
+            let lo = g.load_ops(m128, "poke", bank, &scr, &scr);
+            ops.extend(lo);
+            if m128 {
+                ops.push(Op::Out(0x7FFD, if bank == 7 { 0x08 | 7 } else { 5 }));
+            }
+        } else {
+            // poke on top of a screen loaded by the CPU
+            let scr = random_screen(&mut g.rng);
+            let win: u16 = if bank == 7 { 0xC000 } else { 0x4000 };
+            if m128 {
+                ops.push(Op::Out(0x7FFD, if bank == 7 { 0x08 | 7 } else { 5 }));
+            }
+            ops.push(Op::WBlk(win, 0, scr.clone()));
+            ops.push(Op::Frame);
+            let ps: Vec<(u16, u8)> = (0..4)
+                .map(|_| {
+                    let off = g.rng.below(SCR_LEN as u64) as usize;
+                    (win + off as u16, visible_byte(&mut g.rng, off) ^ scr[off] | 1)
+                })
+                .collect();
+            ops.push(Op::Poke(ps));
+            // pokes outside the screen and into ROM must not disturb anything
+            ops.push(Op::Poke(vec![(0x0C88, 0xC3), (0x5B00, 0x55), (0x9000, 0xAA)]));
+        }
+        ops.push(Op::Frame);
+        ops.push(Op::Frame);
+        ops.push(Op::Frame);
+        cases.push((format!("poke m128={} bank={}", m128, bank), Case { m128, ops }, 1));
+    }
+
+    // ---- run them on worker threads, each with its own driver process and emulators
+    let threads = std::thread::available_parallelism().map(|n| n.get()).unwrap_or(4).clamp(1, 12);
+    let results: Vec<Vec<(usize, Out, Vec<Fail>)>> = std::thread::scope(|s| {
+        let handles: Vec<_> = (0..threads)
+            .map(|t| {
+                let cases = &cases;
+                let path = o.model.clone();
+                s.spawn(move || {
+                    let mut model = Model::spawn(&path, "C08");
+                    let mut res = vec![];
+                    for (i, (_, case, every)) in cases.iter().enumerate() {
+                        if i % threads != t {
+                            continue;
+                        }
+                        let mut out = Out::default();
+                        let fails = run_case(&mut model, case, *every, &mut out);
+                        res.push((i, out, fails));
+                    }
+                    res
+                })
+            })
+            .collect();
+        handles.into_iter().map(|h| h.join().unwrap_or_default()).collect()
+    });
+    let mut flat: Vec<(usize, Out, Vec<Fail>)> = results.into_iter().flatten().collect();
+    flat.sort_by_key(|x| x.0);
+    if flat.len() != cases.len() {
+        rep.notes.push(format!("{} of {} cases did not complete (worker died)", cases.len() - flat.len(), cases.len()));
+    }
+    let mut perturbed = 0u64;
+    for (i, out, fails) in flat {
+        let (label, case, _) = &cases[i];
+        rep.evaluations += out.evals;
+        rep.class(label.clone());
+        for c in out.classes {
+            rep.class(c);
+        }
+        for (h, b, n) in out.counts {
+            rep.count_n(&h, b, n);
+        }
+        for op in &case.ops {
+            if let Op::W(a, _, _) | Op::Z80(a, _) = op {
+                perturbed += 1;
+                rep.class(format!("perturbed offset/256={} m128={}", (a & 0x3FFF) / 256, case.m128));
+            }
+        }
+        rep.count("cases", label.split(' ').next().unwrap_or("?"));
+        if i < 2 {
+            rep.sample(J::s(case.text().chars().take(240).collect::<String>() + " ..."));
+        }
+        for f in fails {
+            if rep.has_key(&f.key) {
+                rep.count("repeat_violations", f.key.clone());
+                continue;
+            }
+            // shrinking re-runs the case many times; after a handful of distinct failures the
+            // remaining ones are recorded as found
+            let small = if rep.violations.len() < 5 { shrink(&mut model, case, &f.key) } else { case.clone() };
+            let mut o2 = Out::default();
+            let f2 = run_case(&mut model, &small, 1, &mut o2).into_iter().find(|x| x.key == f.key).unwrap_or(f);
+            rep.violation(violation_of(&small, &f2));
+        }
+    }
+    rep.extra.push(("cases".into(), J::I(cases.len() as i64)));
+    rep.extra.push(("single_byte_writes".into(), J::I(perturbed as i64)));
+    rep.extra.push(("worker_threads".into(), J::I(threads as i64)));
     rep
 }
